@@ -24,6 +24,7 @@ from functools import partial
 import itertools
 import sys
 import types
+import warnings
 from collections import Counter, deque
 from inspect import isawaitable
 
@@ -334,6 +335,23 @@ class Rendered:
     def make(self, *, rtc=True, allow=False, Hh=None, model=None, model_given=False, listeners=None, late=(), instance_cbs=True, extra_ctor=(), **kw):
         """Instantiate. Without `model_given` the model is the generated model class when the spec places callbacks on it,
         else the library default; with it, `model` is the user object (may be falsy). Returns (sm, H)."""
+        if getattr(self, "base_cls", None) is not None and not getattr(self, "_base_used", False):
+            # "extend" style: the class that the subject extends is instantiated and looked at first (a cache kept per class must
+            # not be found through the MRO by the extending class).  What the base instance does is not judged here.
+            self._base_used = True
+            sub, self.cls = self.cls, self.base_cls
+            try:
+                with warnings.catch_warnings():
+                    warnings.simplefilter("ignore")
+                    smb, _h = self.make(allow=True, instance_cbs=instance_cbs)
+                    smb.current_state
+                    list(smb.allowed_events)
+            except HarnessError:
+                raise
+            except Exception:
+                pass
+            finally:
+                self.cls = sub
         Hh = Hh or self.new_H()
         objs = {}
         same = self.spec.get("same_class", {})
@@ -432,6 +450,10 @@ def render(spec, *, cname=None, register=True):
         return out
 
     style = spec.get("style") or {}
+    # "extend": state number `ext` and every declaration that touches it live in a subclass of the class that declares the rest
+    # (`class Sub(Base): z = State(); jump = Base.a.to(z)`, as in tests/test_statemachine_inheritance.py)
+    ext = style.get("extend")
+    sub_ns = {}
     states = []
     for i, s in enumerate(spec["states"]):
         kw = dict(initial=s.get("initial", False), final=s.get("final", False))
@@ -460,16 +482,19 @@ def render(spec, *, cname=None, register=True):
         states = [getattr(sts, s["id"]) for s in spec["states"]]
     elif sstyle == "dict":
         d = {s["id"]: State(**kw) for s, kw in zip(spec["states"], states)}
-        ns["sts"] = States(d)
         states = [d[s["id"]] for s in spec["states"]]
+        if ext is not None:
+            sub_ns[spec["states"][ext]["id"]] = d.pop(spec["states"][ext]["id"])
+        ns["sts"] = States(d)
     else:
         states = [State(**kw) for kw in states]
-        for s, st in zip(spec["states"], states):
-            ns[s["id"]] = st
+        for i, (s, st) in enumerate(zip(spec["states"], states)):
+            (sub_ns if i == ext else ns)[s["id"]] = st
     plan = style.get("trans") or [{"k": [k], "how": "kwstr"} for k in range(len(spec["trans"]))]
     tlists = [None] * len(spec["trans"])
     per_event = {}  # event -> [(TransitionList, how)] for class-attribute declared events
     placeholders = {}
+    cur_ns = [ns]
     attr_events = {e for d in plan if d["how"] in ("attr", "event_obj", "any") for k in d["k"] for e in spec["trans"][k]["events"]}
 
     def tkw(k, with_event=None):
@@ -490,7 +515,7 @@ def render(spec, *, cname=None, register=True):
                 else:
                     if e not in placeholders:
                         placeholders[e] = Event(name=e) if len(placeholders) % 2 else Event()
-                        ns[e] = placeholders[e]
+                        cur_ns[0][e] = placeholders[e]
                     evs.append(placeholders[e])
             kw["event"] = evs if len(evs) > 1 else evs[0]
         if t.get("internal"):
@@ -504,7 +529,10 @@ def render(spec, *, cname=None, register=True):
                 kw[grp] = items
         return kw
 
-    for d in plan:
+    def touches_ext(d):
+        return ext is not None and any(ext in (spec["trans"][k]["src"], spec["trans"][k]["dst"]) for k in d["k"])
+
+    def declare(d, ns):
         ks, how = d["k"], d["how"]
         t = spec["trans"][ks[0]]
         if how in ("kwstr", "kwlist", "kw_eventobj", "kw_placeholder"):
@@ -529,28 +557,40 @@ def render(spec, *, cname=None, register=True):
             raise HarnessError(f"unknown declaration style {how}")
         for k in ks:
             tlists[k] = tl
-    for e, lst in per_event.items():
-        tls = [x[0] for x in lst]
-        if style.get("assoc") == "right" and len(tls) > 1:
-            combined = tls[-1]
-            for x in reversed(tls[:-1]):
-                combined = x | combined
-        else:
-            combined = tls[0]
-            for x in tls[1:]:
-                combined = combined | x
-        ns[e] = Event(combined, name=e) if any(x[1] == "event_obj" for x in lst) else combined
-    # decorator style (machine methods registered on states / transition lists)
-    for c in cbs:
-        if c["attach"] != "deco":
-            continue
-        fn = funcs[cbid_of(c)]
-        sc = c["scope"]
-        if sc[0] == "state":
-            getattr(states[sc[1]], c["group"])(fn)
-        else:
-            for k in sc[1]:
-                getattr(tlists[k], c["group"])(fn)
+
+    def declare_all(items, ns, state_ids):
+        per_event.clear()
+        placeholders.clear()
+        cur_ns[0] = ns
+        for d in items:
+            declare(d, ns)
+        for e, lst in per_event.items():
+            tls = [x[0] for x in lst]
+            if style.get("assoc") == "right" and len(tls) > 1:
+                combined = tls[-1]
+                for x in reversed(tls[:-1]):
+                    combined = x | combined
+            else:
+                combined = tls[0]
+                for x in tls[1:]:
+                    combined = combined | x
+            ns[e] = Event(combined, name=e) if any(x[1] == "event_obj" for x in lst) else combined
+        # decorator style (machine methods registered on states / transition lists)
+        declared = {k for d in items for k in d["k"]}
+        for c in cbs:
+            if c["attach"] != "deco":
+                continue
+            fn = funcs[cbid_of(c)]
+            sc = c["scope"]
+            if sc[0] == "state":
+                if sc[1] in state_ids:
+                    getattr(states[sc[1]], c["group"])(fn)
+            else:
+                for k in sc[1]:
+                    if k in declared:
+                        getattr(tlists[k], c["group"])(fn)
+
+    declare_all([d for d in plan if not touches_ext(d)], ns, {i for i in range(len(states)) if i != ext})
 
     def __init__(self, Hh=None, *args, **kw):
         if isinstance(Hh, H):
@@ -564,7 +604,16 @@ def render(spec, *, cname=None, register=True):
     ns["__module__"] = __name__
     ns["__qualname__"] = cname
     kwds = {"strict_states": True} if spec.get("strict") else {}
-    if style.get("inherit"):
+    base_cls = None
+    if ext is not None:
+        with warnings.catch_warnings():
+            warnings.simplefilter("ignore")  # the base alone may e.g. have no path to a final state: a warning unless strict
+            base_cls = types.new_class(cname + "_base", (StateMachine,), {}, lambda d: d.update(ns))
+        setattr(HARNESS_MODULE, cname + "_base", base_cls)
+        declare_all([d for d in plan if touches_ext(d)], sub_ns, {ext})
+        sub_ns.update({"__module__": __name__, "__qualname__": cname})
+        cls = types.new_class(cname, (base_cls,), kwds, lambda d: d.update(sub_ns))
+    elif style.get("inherit"):
         base = types.new_class(cname + "_base", (StateMachine,), kwds, lambda d: d.update(ns))
         setattr(HARNESS_MODULE, cname + "_base", base)
         cls = types.new_class(cname, (base,), {}, lambda d: d.update({"__module__": __name__, "__qualname__": cname}))
@@ -592,6 +641,7 @@ def render(spec, *, cname=None, register=True):
             pclasses[twin] = pclasses[orig]
     r = Rendered(spec, cls, pclasses, uid)
     r.instance_fns = instance_fns
+    r.base_cls = base_cls
     return r
 
 
